@@ -16,7 +16,10 @@ class C16(Check):
             "x and Copy(x) are disjoint (reflect+unsafe walk), writes to every slice element of one are not visible through "
             "the other, an unpacked message shares no address range with the input buffer and survives overwriting it, "
             "Len/String/Pack/PackBuffer/Copy/IsDuplicate/Sign/Verify leave their arguments unchanged up to RDLENGTH and "
-            "extended-RCODE bookkeeping; model cases: per type, the fields copy() leaves shared (from the tables) = the fields "
+            "extended-RCODE bookkeeping - also when the operation FAILS (records of every type made unpackable in every way "
+            "their fields offer, alone, in every section / position of a message, first / middle / last of an RRset signed or "
+            "verified under non-canonical headers; oracle: reflection fingerprint before = after) and WHILE Sign / Verify run "
+            "(private-use RDATA called back from inside the operation fingerprints the caller's RRset); model cases: per type, the fields copy() leaves shared (from the tables) = the fields "
             "observed shared. Non-trivial: every case names a distinct type.")
     trusted = ["hex/base64/base32 text codecs of Go's encoding/* are outside the model (fields held as the octets they denote)",
                "EDNS0 option and SVCB parameter values are (code, packed value, reported length) triples at this level"]
